@@ -1094,6 +1094,33 @@ class SReal:
                 return getattr(SComplex(self, 0), op)(o)
             return NotImplemented
         d = self.p - q
+        sg = _mono_sign(d)
+        if sg is not None:
+            # single monomial whose sign is known from the atoms' declared
+            # signs: decided without a solver call
+            strict, sign = sg
+            res = {'__lt__': sign < 0 and strict, '__le__': sign < 0,
+                   '__gt__': sign > 0 and strict, '__ge__': sign > 0,
+                   '__eq__': False if strict else None,
+                   '__ne__': True if strict else None}[op]
+            if op in ('__lt__', '__gt__') and not strict and (
+                    (op == '__lt__' and sign < 0) or
+                    (op == '__gt__' and sign > 0)):
+                res = None      # could be zero
+            if op == '__lt__' and sign > 0:
+                res = False
+            if op == '__gt__' and sign < 0:
+                res = False
+            if op == '__le__' and sign > 0 and strict:
+                res = False
+            if op == '__ge__' and sign < 0 and strict:
+                res = False
+            if op == '__le__' and sign > 0 and not strict:
+                res = None
+            if op == '__ge__' and sign < 0 and not strict:
+                res = None
+            if res is not None:
+                return SBool(z3.BoolVal(bool(res)))
         if d.is_const():
             c = d.const_value()
             return SBool(z3.BoolVal({
@@ -1175,6 +1202,29 @@ class SReal:
 
 
 numbers.Real.register(SReal)
+
+
+def _mono_sign(p):
+    """(strict, sign) for a single-monomial polynomial whose atoms have
+    declared signs (nonneg [+ nonzero]); None if unknown."""
+    if _CUR is None:
+        return None
+    single = p.monomial_single()
+    if single is None or not single[1]:
+        return None
+    c, m = single
+    strict = True
+    for a, e in m:
+        at = _CUR.atoms[a]
+        if e % 2 == 0:
+            if not at.nonzero:
+                strict = False
+            continue
+        if not at.nonneg:
+            return None
+        if not at.nonzero:
+            strict = False
+    return strict, (1 if c > 0 else -1)
 
 
 def _coerce_cplx(x):
